@@ -10,7 +10,8 @@ META = {
         "per catalogue entry (reshape transpose moveaxis expand_dims atleast_1d/2d/3d repeat tile "
         "concatenate stack hstack vstack dstack split array_split hsplit vsplit dsplit diag diagonal "
         "broadcast_arrays where choose full full_like getitem iter ravel flatten T flat copy) seeded "
-        "valid arguments x operand classes (0-d..3-d incl. size-1 axes, transposed views, differing "
+        "valid arguments x operand classes (0-d..3-d incl. size-1 axes, transposed views, narrow "
+        "coefficient dtypes, differing "
         "name/term sets for joins) x spelling (numpoly / numpy / method); expected = numpy itself "
         "applied to an object array of opaque model polynomials; signature = (function, spelling, "
         "shapes, operand kinds, argument pattern); non-trivial when an operand has >= 2 elements"
@@ -31,4 +32,4 @@ def facts_of_case(case):
 
 
 def run(spec, ctx):
-    catrun.run_group(spec, ctx, C.GROUP_C09, spec.get("per_op", 1))
+    catrun.run_group(spec, ctx, C.GROUP_C09, spec.get("per_op", 1), gen_cls=catrun.NarrowGen)
